@@ -1,6 +1,6 @@
 """Ownership typestate rules shared by C13 (sandbox_callback) and C15 (app_pointer)."""
 from .. import q
-from ..engine import Engine, Inconclusive, C, fmt, cmp_, subterms
+from ..engine import Engine, Inconclusive, C, fmt, cmp_, subterms, strip_targs_name
 from ..common import site
 
 THIS_OBJ = ("deref", ("this",))
@@ -10,8 +10,17 @@ def record_of(db, f):
     return db.rec_by_id.get(f.get("rid"))
 
 
-def field_names(rec):
-    return [fl["n"] for fl in rec["fields"]]
+def field_names(rec, db=None):
+    """the data members that make up the owner's state; a member that only groups others (a nested aggregate of scalars, see
+    Engine.nested_state_members) stands for the members it groups"""
+    out = []
+    for fl in rec["fields"]:
+        ft = fl.get("t") or {}
+        sub = None
+        if db is not None and ft.get("k") == "rec" and strip_targs_name(ft.get("rn") or "").startswith(strip_targs_name(rec.get("n") or "?") + "::") and fl["n"] in Engine(db).nested_state_members():
+            sub = db.rec_by_id.get(ft.get("rid"))
+        out += [x["n"] for x in sub["fields"]] if sub else [fl["n"]]
+    return out
 
 
 def this_field_stores(p):
@@ -42,7 +51,7 @@ def check_move_obj(rep, prop, db, f, inst, other_name=None):
     if rec is None:
         rep.inconclusive(rule, site(f), "record not found", inst)
         return
-    fields = field_names(rec)
+    fields = field_names(rec, db)
     try:
         ps = q.paths(db, f)
     except Inconclusive as ex:
